@@ -44,7 +44,7 @@ type grpIn struct {
 }
 
 type opIn struct {
-	Op     string  `json:"op"` // arrive burst meta mburst mrounds read readmeta await close cut stuck
+	Op     string  `json:"op"` // arrive burst meta mburst mrounds read readn readshort readmeta await close connclose cut stuck
 	UpFull bool    `json:"upfull,omitempty"`
 	Up     int     `json:"up,omitempty"` // upstream info (full) or alias
 	Seq    int     `json:"seq,omitempty"`
@@ -592,8 +592,12 @@ func runCase(c *caseIn, r *rng.R) (res result) {
 	}
 	awaitFailed := false
 
+	shortRead := false
 	doRead := func() string {
 			timeout := wd
+			if shortRead {
+				timeout = 5 * time.Millisecond
+			}
 			if !closed && q == 0 {
 				if emptyReads >= 2 {
 					return ""
@@ -863,6 +867,50 @@ func runCase(c *caseIn, r *rng.R) (res result) {
 			if msg := doRead(); msg != "" {
 				return bad(msg)
 			}
+		case "readshort":
+			// ReadDataPoints with a context of a few milliseconds (after a close the answer must not depend on it)
+			shortRead = true
+			for k := 0; k < max(op.N, 1); k++ {
+				if msg := doRead(); msg != "" {
+					return bad(msg)
+				}
+			}
+			shortRead = false
+		case "connclose":
+			// the CONNECTION is closed under the open stream (Conn.Close): no DownstreamCloseRequest; whatever
+			// is still queued in the stream must not be handed out afterwards (it could never be acknowledged)
+			if closed {
+				continue
+			}
+			if c.IntervalMs <= 1000 && !await() { // nothing pending when the connection goes away
+				awaitFailed = true
+			}
+			evT = append(evT, "AckTick true")
+			err, blocked := call(wd, func() error {
+				ctx, cancel := context.WithTimeout(context.Background(), wd)
+				defer cancel()
+				return conn.Close(ctx)
+			})
+			if blocked {
+				return bad(fmt.Sprintf("Conn.Close did not return after its context ended (hang) at event #%d", len(evT)))
+			}
+			if err != nil {
+				return bad("Conn.Close returned an error on a live connection: " + err.Error())
+			}
+			// the stream's context is cancelled by a watcher goroutine: wait until the stream reports closed
+			if qm == 0 {
+				broker.WaitFor(wd, func() bool {
+					ctx, cancel := context.WithTimeout(context.Background(), 2*time.Millisecond)
+					defer cancel()
+					_, err := down.ReadMetadata(ctx)
+					return errClass(err) == 4
+				})
+			} else {
+				time.Sleep(50 * time.Millisecond)
+			}
+			evT = append(evT, "ConnClose true")
+			closed = true
+			res.counts["conn-close-with-queued-chunks"]++
 		case "readn":
 			for k := 0; k < op.N; k++ {
 				if msg := doRead(); msg != "" {
@@ -1302,6 +1350,38 @@ func genBigBurst(r *rng.R, total, intervalMs int, midTick bool) *caseIn {
 	return c
 }
 
+// k chunks arrive and stay queued, m of them are read and acknowledged, then the connection is closed
+// under the stream; 2k further reads (short context and long context) must all fail with the closed error
+func genConnClose(r *rng.R) *caseIn {
+	c := &caseIn{QoS: r.Intn(3), NSrc: 1, IntervalMs: []int{1, 1, 5}[r.Intn(3)], Datagram: r.Chance(1, 3)}
+	k := 5 + r.Intn(36)
+	m := r.Intn(k)
+	if r.Chance(1, 4) {
+		m = 0
+	}
+	for i := 0; i < k; i++ {
+		info := 1 + i%2
+		op := opIn{Op: "arrive", Seq: 1 + i/2, Up: info, UpFull: i < 2 || r.Chance(1, 5),
+			Groups: []grpIn{{Full: i < 2 || r.Chance(1, 3), ID: 1 + i%2, Lens: []int{1 + r.Intn(3)}}}}
+		c.Ops = append(c.Ops, op)
+	}
+	if m > 0 {
+		c.Ops = append(c.Ops, opIn{Op: "readn", N: m})
+	}
+	c.Ops = append(c.Ops, opIn{Op: "connclose"})
+	for i := 0; i < 2*k; {
+		n := 1 + r.Intn(4)
+		if r.Bool() {
+			c.Ops = append(c.Ops, opIn{Op: "readshort", N: n})
+		} else {
+			c.Ops = append(c.Ops, opIn{Op: "readn", N: n})
+		}
+		i += n
+	}
+	c.Ops = append(c.Ops, opIn{Op: "readmeta"}, opIn{Op: "close"}, opIn{Op: "read"})
+	return c
+}
+
 // more items than the queues hold: the first 1024 are kept, the rest dropped
 func genOverflow(r *rng.R, metaToo bool) *caseIn {
 	c := &caseIn{QoS: r.Intn(3), NSrc: 1, IntervalMs: 5}
@@ -1386,9 +1466,9 @@ func main() {
 		}
 		jobs = append(jobs, job{&rf.Input, "replay", rf.CaseSeed})
 	} else {
-		nrand, nover, nout, nstuck, nmb := 420, 2, 40, 30, 3
+		nrand, nover, nout, nstuck, nmb, ncc := 400, 2, 40, 30, 3, 25
 		if *tier == "thorough" {
-			nrand, nover, nout, nstuck, nmb = 5200, 12, 400, 300, 20
+			nrand, nover, nout, nstuck, nmb, ncc = 5000, 12, 400, 300, 20, 250
 		}
 		genScripted(add)
 		for i := 0; i < nover; i++ {
@@ -1457,6 +1537,9 @@ func main() {
 		for i := 0; i < nmb; i++ {
 			add(genMetaBurst(r.Fork()), "metaburst")
 		}
+		for i := 0; i < ncc; i++ {
+			add(genConnClose(r.Fork()), "connclose")
+		}
 		// spread over the shards (60 cases each): their terms are the large ones
 		big := []*caseIn{genBigBurst(r.Fork(), 2500, 10000, false), genBigBurst(r.Fork(), 3100, 3600000, false),
 			genBigBurst(r.Fork(), 1500, 10000, false), genBigBurst(r.Fork(), 2300, 20, true)}
@@ -1514,7 +1597,7 @@ func main() {
 			}
 		}
 	}
-	rule := "scripted switch-over histories; overflow histories (more than 1024 chunks / metadata items queued before any read); random: 4-31 ops over 1-5 upstreams x 1-6 data ids mixing full and alias forms (full form again after the alias exists, alias used in the chunk that introduces the id, unknown aliases, pre-registered ids), 0-4 groups of 0-3 points, metadata from 1-3 source nodes, reads lagging arbitrarily, reads on an empty queue, awaits of the timer-driven ack flush (interval 1/5/20 ms) or a 10 s interval with everything pending at Close, reads and a second Close after Close, QoS x3; outage: the same with 1-2 loud link failures in the middle (keepalive 10/40 ms, the broker accepts the redial and the resume request), half of them with a 10 s flush interval so that every result read before the failure is still pending when the link dies; the failed flushes are recovered from the gap in the ack ids; stuck: the peer stops reading so that an ack flush blocks in the transport write, the next chunk is read meanwhile, then the link is cut (the write fails) and the stream resumes; metaburst: 3-5 rounds of 300-500 metadata of a node named by two or three filters, sent back to back with a concurrent reader; filters may name a node twice, metadata of nodes without filter are sent too; pre-registered id lists may repeat an id; half of the metadata are of the other variants (upstream open / resume / normal and abnormal close naming an upstream whose chunks were sent and are often still queued, downstream open / resume / closes), the rest base times; a third of all cases (every QoS) run over a transport with an unreliable channel (AsUnreliable ok): chunks of unreliable-QoS streams are sent on it, reliable and partial ones on the reliable channel; bigburst: 1500 / 2300 (with an awaited flush after the first part) / 2500 / 3100 chunks returned by ReadDataPoints with a 20 ms / 10 s / 1 h ack flush interval, then Close. non-trivial = >=2 upstreams returned, >=1 returned chunk whose upstream came in alias form, >=1 returned group in alias form, >=2 acks; distinct = distinct Coq case terms"
+	rule := "scripted switch-over histories; overflow histories (more than 1024 chunks / metadata items queued before any read); random: 4-31 ops over 1-5 upstreams x 1-6 data ids mixing full and alias forms (full form again after the alias exists, alias used in the chunk that introduces the id, unknown aliases, pre-registered ids), 0-4 groups of 0-3 points, metadata from 1-3 source nodes, reads lagging arbitrarily, reads on an empty queue, awaits of the timer-driven ack flush (interval 1/5/20 ms) or a 10 s interval with everything pending at Close, reads and a second Close after Close, QoS x3; outage: the same with 1-2 loud link failures in the middle (keepalive 10/40 ms, the broker accepts the redial and the resume request), half of them with a 10 s flush interval so that every result read before the failure is still pending when the link dies; the failed flushes are recovered from the gap in the ack ids; stuck: the peer stops reading so that an ack flush blocks in the transport write, the next chunk is read meanwhile, then the link is cut (the write fails) and the stream resumes; metaburst: 3-5 rounds of 300-500 metadata of a node named by two or three filters, sent back to back with a concurrent reader; filters may name a node twice, metadata of nodes without filter are sent too; pre-registered id lists may repeat an id; half of the metadata are of the other variants (upstream open / resume / normal and abnormal close naming an upstream whose chunks were sent and are often still queued, downstream open / resume / closes), the rest base times; a third of all cases (every QoS) run over a transport with an unreliable channel (AsUnreliable ok): chunks of unreliable-QoS streams are sent on it, reliable and partial ones on the reliable channel; connclose: 5-40 chunks arrive, 0..k-1 of them are read and their acks awaited, then Conn.Close with the rest still queued in the stream, then 2k further ReadDataPoints calls (5 ms and 3 s contexts), ReadMetadata, a stream Close and one more read; bigburst: 1500 / 2300 (with an awaited flush after the first part) / 2500 / 3100 chunks returned by ReadDataPoints with a 20 ms / 10 s / 1 h ack flush interval, then Close. non-trivial = >=2 upstreams returned, >=1 returned chunk whose upstream came in alias form, >=1 returned group in alias form, >=2 acks; distinct = distinct Coq case terms"
 	if err := w.Flush(*seed, *tier, rule, false, nil); err != nil {
 		fmt.Fprintln(os.Stderr, err)
 		os.Exit(2)
